@@ -127,6 +127,8 @@ func main() {
 		os.Exit(cmdSweep(os.Args[2:]))
 	case "sqlinv":
 		os.Exit(cmdSQLInv(os.Args[2:]))
+	case "appendsites":
+		os.Exit(cmdAppendSites(os.Args[2:]))
 	case "mutsites":
 		os.Exit(cmdMutSites(os.Args[2:]))
 	default:
@@ -1016,6 +1018,61 @@ func cmdMutSites(args []string) int {
 			fmt.Printf("%s\t%d\t%s\t%s\t%s\t%d\n", pos.Filename, pos.Offset, be.Op, nw, k, pos.Line)
 			return true
 		})
+	}
+	return 0
+}
+
+// cmdAppendSites lists every append call in the functions under (non-trusted) contract with the verdict of the
+// ownership check that justifies modelling append as reallocation (development aid).
+func cmdAppendSites(args []string) int {
+	fs := flag.NewFlagSet("appendsites", flag.ExitOnError)
+	repo := fs.String("repo", "/repo", "repository")
+	verif := fs.String("verif", "/verif", "verif dir")
+	fs.Parse(args)
+	pkgs, err := contractPackages(*repo, "")
+	if err != nil || len(pkgs) == 0 {
+		return 2
+	}
+	P, err := LoadProgram(*repo, pkgs, filepath.Join(*verif, "contracts"))
+	if err != nil {
+		fmt.Fprintln(os.Stderr, err)
+		return 2
+	}
+	InstantiateSchemas(P)
+	var keys []string
+	for k := range P.CS.Funcs {
+		keys = append(keys, k)
+	}
+	sort.Strings(keys)
+	seenFn := map[*ssa.Function]bool{}
+	for _, k := range keys {
+		c := P.CS.Funcs[k]
+		if c.Trusted || c.SchemaOf != "" {
+			continue
+		}
+		fn := P.FindFunc(c.PkgPath, c.Key)
+		if fn == nil || seenFn[fn] {
+			continue
+		}
+		seenFn[fn] = true
+		for _, b := range fn.Blocks {
+			for _, in := range b.Instrs {
+				call, ok := in.(*ssa.Call)
+				if !ok {
+					continue
+				}
+				bi, isB := call.Call.Value.(*ssa.Builtin)
+				if !isB || bi.Name() != "append" {
+					continue
+				}
+				okOwn, why := appendOwnerOK(call)
+				v := "ok"
+				if !okOwn {
+					v = "ALIAS?"
+				}
+				fmt.Printf("%-7s %s %s: %s\n", v, P.pos(call.Pos()), k, why)
+			}
+		}
 	}
 	return 0
 }
